@@ -146,8 +146,13 @@ class PolygonPixelRegion(PixelRegion):
         vx = np.asarray(self.vertices.x, dtype=float)
         vy = np.asarray(self.vertices.y, dtype=float)
 
-        fraction = polygonal_overlap_grid(xmin, xmax, ymin, ymax, nx, ny,
-                                          vx, vy, use_exact, subpixels)
+        if (nx == 0 or ny == 0) and not use_exact:
+            # a zero-width polygon lying exactly on a pixel edge touches
+            # no pixel: its bounding box, and so its mask, is empty
+            fraction = np.zeros((ny, nx))
+        else:
+            fraction = polygonal_overlap_grid(xmin, xmax, ymin, ymax, nx, ny,
+                                              vx, vy, use_exact, subpixels)
 
         return RegionMask(fraction, bbox=bbox)
 
